@@ -22,6 +22,8 @@ def run(ctx):
         "continuation are reached with a resumable plan only); D2 request_suspend stores FailedPause and moves to 'aborting' when "
         "no checkpoint is in effect; D3 None is assigned to the message cache only by clear_checkpoint and 'resumable' is exactly "
         "'cache is not None'; D4 FailedPause is recorded as exit_status 'abort' (ladder of C02). Cleanup / closing of runs: C01.D1, C06.D1.")
+    # the typestate fixpoint (and C10 as a whole) assumes that a call starts with a checkpointable plan
+    q.per_call_reset(ctx, rm, "C10.D3-call-starts-resumable", ["_msg_cache"])
     # D1 shape of the branch
     branch = None
     for s in rm.loop.body:
